@@ -209,7 +209,7 @@ int main(int argc, char **argv) {
 	                   "check: 0 on consistent arrays (built by the reference), non-zero for every single-byte change (all positions of all blocks when vects*len <= 1600); "
 	                   "minargs: below-minimum vects refused without dereferencing (poisoned pointers). Non-trivial: len >= 32 and vects > minimum";
 	std::vector<Sub> subs = {
-		{"gen", body_gen, 16, 10, nullptr, rule},
+		{"gen", body_gen, 18, 10, nullptr, rule},
 		{"check", body_check, 16, 8, nullptr, rule},
 		{"minargs", body_minargs, 6, 1, nullptr, rule},
 	};
